@@ -171,6 +171,9 @@ type OmitCase struct {
 	Extra    []string     `json:"extra,omitempty"` // other options of the command passed with non-default values in both runs
 	Data     clit.Dataset `json:"data"`
 	Seed     int64        `json:"seed"`
+	// Spaced: the documented default is typed as two arguments (--option value) instead of
+	// --option=value (options that take a value only)
+	Spaced bool `json:"spaced,omitempty"`
 }
 
 // extraValue draws a non-default value for another option of the command (the meaning of an
@@ -281,9 +284,13 @@ func checkOmit(c OmitCase) error {
 	if base.Diff(again) != "" {
 		return nil // not reproducible: a matter for C18, nothing can be concluded here
 	}
-	with := clit.Run(tp, c.Data, seed, 0, append(append([]string{}, c.Extra...), "--"+fl.Name+"="+fl.DefValue)...).Masked()
+	typed, shown := []string{"--" + fl.Name + "=" + fl.DefValue}, "--"+fl.Name+"="+fl.DefValue
+	if c.Spaced && fl.Value.Type() != "bool" {
+		typed, shown = []string{"--" + fl.Name, fl.DefValue}, "--"+fl.Name+" "+fl.DefValue+" (two arguments)"
+	}
+	with := clit.Run(tp, c.Data, seed, 0, append(append([]string{}, c.Extra...), typed...)...).Masked()
 	if d := base.Diff(with); d != "" {
-		return fmt.Errorf("%s %v: leaving out --%s differs from passing its documented default --%s=%s: %s", tp.Name, c.Extra, fl.Name, fl.Name, fl.DefValue, d)
+		return fmt.Errorf("%s %v: leaving out --%s differs from passing its documented default %s: %s", tp.Name, c.Extra, fl.Name, shown, d)
 	}
 	return nil
 }
@@ -301,7 +308,7 @@ func TestC19Omitted(t *testing.T) {
 		Rule: fmt.Sprintf("%d (command template, omitted scalar option) pairs over %d templates x generated data sets x seed: the command is run without the option and with --option=<default printed by the help text> in new processes (same seed, same stdin), in half of the cases together with 1-2 other options of the command set to non-default values in both runs; exit status, stdout and all written files must be identical; templates whose baseline is not reproducible are skipped; non-trivial = the baseline run exits with status 0 and produces output", len(pairs), len(clit.Templates())),
 		Gen: func(t *rapid.T, thorough bool) OmitCase {
 			p := pairs[rapid.IntRange(0, len(pairs)-1).Draw(t, "pair")]
-			c := OmitCase{Template: p.tpl, Flag: p.flag, Data: clit.GenDataset(t), Seed: rapid.Int64Range(0, 1<<31).Draw(t, "seed")}
+			c := OmitCase{Template: p.tpl, Flag: p.flag, Data: clit.GenDataset(t), Seed: rapid.Int64Range(0, 1<<31).Draw(t, "seed"), Spaced: rapid.Bool().Draw(t, "spaced")}
 			tp, _ := templateByName(p.tpl)
 			others := omittable(tp)
 			for i, n := 0, rapid.SampledFrom([]int{0, 0, 1, 1, 2}).Draw(t, "nextra"); i < n && len(others) > 1; i++ {
@@ -334,7 +341,7 @@ func TestC19Omitted(t *testing.T) {
 // visit each of the ~1500 pairs.
 
 func TestC19OmittedAll(t *testing.T) {
-	r := h.NewRecorder(t, "C19", "omitted-all", "every (command template, omitted scalar option) pair of the template table, twice per run, on a data set with 12-16 tips and on one with 67-130 tips, both generated from VERIF_SEED: the command without the option and with --option=<documented default> must give identical exit status, stdout and files; the templates that type no option at all are also run with standard input on the null device (not a pipe), bare and with each option at its default; non-trivial = the baseline run exits with status 0 and produces output")
+	r := h.NewRecorder(t, "C19", "omitted-all", "every (command template, omitted scalar option) pair of the template table, twice per run, on a data set with 12-16 tips and on one with 67-130 tips, both generated from VERIF_SEED: the command without the option and with the documented default typed (--option=value on the small data set, --option value as two arguments on the large one) must give identical exit status, stdout and files; the templates that type no option at all are also run with standard input on the null device (not a pipe), bare and with each option at its default; non-trivial = the baseline run exits with status 0 and produces output")
 	var rc OmitCase
 	if replaying, mine := r.ReplayCase(&rc); replaying {
 		if mine {
@@ -362,7 +369,8 @@ func TestC19OmittedAll(t *testing.T) {
 				}
 				c := OmitCase{Template: tp.Name, Flag: f.Name, Data: sets[k%len(sets)], Seed: h.Seed() + int64(k)}
 				if big {
-					c.Data = large
+					// the second run of the pair: the large data set, and the default typed as two arguments
+					c.Data, c.Spaced = large, true
 				}
 				var err error
 				gerr := r.Guard(map[string]any{"template": c.Template, "flag": c.Flag}, 300e9, func() error {
